@@ -432,7 +432,7 @@ def run_check(pid: str, tier: str) -> int:
     print(f"[{pid}] runs={agg['n']} distinct={len(agg['digests'])} nontrivial={dn} faults={dict(agg['faults'])} "
           f"known={len(known_seen)} new_violations={len(new_sigs)} errors={len(agg['errors'])} wall={wall:.1f}s", flush=True)
     if agg["errors"]:
-        print(f"[{pid}] HARNESS ERRORS ({len(agg['errors'])}), first:", file=sys.stderr)
+        print(f"[{pid}] HARNESS ERRORS ({len(agg['errors'])}) at run indices {[e['run_index'] for e in agg['errors']][:10]}, first:", file=sys.stderr)
         print(agg["errors"][0]["error"], file=sys.stderr)
         if exit_code == 0:
             return 2
